@@ -391,6 +391,7 @@ impl Prop for ConnProp {
             faults = nodesim::gen_faults(&mut rng, n, last + 2000, 4, true);
             faults.extend(nodesim::gen_connect_faults(&mut rng, 2));
         }
+        faults.extend(nodesim::gen_freeze_faults(seed, n, last + 2000));
         let mut knobs = gen_node_knobs(&mut rng);
         let limit_p = if self.id == "C06" { 3 } else { 1 };
         if rng.chance(limit_p, 5) {
